@@ -215,8 +215,8 @@ def _render(case):
         fmt = case["format"]
         doc = dict(case["doc"], props=case.get("props") or {})
         kw = {"opts": case["opts"]} if case.get("opts") else {}
-        if (case.get("opts") or {}).get("no_meta"):
-            doc["props"] = {}         # a package without meta.xml has no document properties
+        if (case.get("opts") or {}).get("no_meta") or (case.get("opts") or {}).get("no_core"):
+            doc["props"] = {}         # a package without meta.xml / docProps/core.xml has no document properties
         return fmt, PROFILES[fmt]["ext"], PROFILES[fmt]["render"](doc, **kw)
     if kind == "grid":
         fmt = case["format"]
@@ -250,7 +250,7 @@ def judge(case):
             return [], f"other:{type(e).__name__}", 0  # C01's business
         fails, nunits = [], 0
         for r in results:
-            props = {} if (case.get("opts") or {}).get("no_meta") else case.get("props")
+            props = {} if ((case.get("opts") or {}).get("no_meta") or (case.get("opts") or {}).get("no_core")) else case.get("props")
             f, n = battery(r, path, None if case.get("mutation") else props, fmt)
             fails += f
             nunits += n
